@@ -337,11 +337,6 @@ else:
         if y.size == 1:
             return np.array([True])
 
-        if y.size == 2:
-            if y[1] == y[0]:
-                return np.array([True, False])
-            return np.array([True, True])
-
         stol = np.abs(tol * np.abs(np.diff(y)).max())
 
         PV = np.zeros(y.size, numba_bool)
@@ -377,10 +372,9 @@ else:
                 cur = nxt
                 j = i
 
-        if np.abs(nxt - y[-2]) > stol:
-            PV[-1] = True
-        else:
-            PV[j] = True
+        # the last value kept is the last peak (it is the last point
+        # if and only if that differs from the value kept before it)
+        PV[j] = True
 
         return PV
 
